@@ -3,6 +3,7 @@ package props
 import (
 	"bytes"
 	"crypto/cipher"
+	"crypto/elliptic"
 	"fmt"
 	"math/big"
 
@@ -352,4 +353,19 @@ func spkiAlgs() (pss, rsaEnc []byte) {
 	}
 	n := new(big.Int).Lsh(big.NewInt(0xc5), 56)
 	return cut(ref.SPKIRSAPSS(n, 3)), cut(ref.SPKIRSAEncryption(n, 3))
+}
+
+// p384InvalidEncodings: 49-byte strings that are not compressed P-384 points (x not on the curve, x >= p, wrong prefix).
+func p384InvalidEncodings(r *core.Rand) [][]byte {
+	curve := elliptic.P384()
+	out := [][]byte{append([]byte{2}, ff(48)...), append([]byte{3}, ff(48)...), append([]byte{4}, r.Bytes(48)...), make([]byte, 49), append([]byte{5}, r.Bytes(48)...)}
+	pb := curve.Params().P.FillBytes(make([]byte, 48))
+	out = append(out, append([]byte{2}, pb...))
+	for len(out) < 9 {
+		b := append([]byte{byte(2 + r.IntN(2))}, r.Bytes(48)...)
+		if x, _ := elliptic.UnmarshalCompressed(curve, b); x == nil {
+			out = append(out, b)
+		}
+	}
+	return out
 }
